@@ -51,24 +51,45 @@ def canPush : Option Filter → Bool
   | none => true
   | some f => safeLateral f false
 
-/-- `collectAddressFilters`: the *string* values of the leaves validated against
-    the schema property `address`, in walk order (arrays — `$in` — are skipped),
-    and whether one of them is partial. `validated` is `validateFilters`' result. -/
+/-- The strings an address-filter value contributes to `collectAddressFilters`:
+    a string itself; the string members of an `$in` array when `collectIn` (the
+    current code — before the fix `df74127` arrays were skipped: `collectIn = false`). -/
+def leafAddrs (collectIn : Bool) : Val → List String
+  | .sc (.str s) => [s]
+  | .arr l => if collectIn then l.filterMap fun | .str s => some s | _ => none else []
+  | _ => []
+
+/-- Only plain string values can make `needSegments` true. -/
+def leafNeedsSegments : Val → Bool
+  | .sc (.str s) => isPartial (segments s.toList)
+  | _ => false
+
+/-- `collectAddressFilters`: the addresses of the leaves validated against the
+    schema property `address`, in walk order, and whether a *string* one is partial.
+    `validated` is `validateFilters`' result. -/
+def collectAddressFiltersWith (collectIn : Bool) (validated : List (String × Val)) :
+    List String × Bool :=
+  let vals := validated.filterMap fun (n, v) => if n == "address" then some v else none
+  ((vals.map (leafAddrs collectIn)).flatten, vals.any leafNeedsSegments)
+
+/-- The current code. -/
 def collectAddressFilters (validated : List (String × Val)) : List String × Bool :=
-  let addrs := validated.filterMap fun
-    | ("address", .sc (.str s)) => some s
-    | _ => none
-  (addrs, addrs.any fun s => isPartial (segments s.toList))
+  collectAddressFiltersWith true validated
 
 /-- The same on a filter whose address keys are `address` / `account` (the volumes
     schema; on the aggregated-balances schema the key `account` is rejected by
     validation before the dataset is built). -/
-def addrs (f : Filter) : List String :=
-  f.leaves.filterMap fun
-    | (_, k, .sc (.str s)) => if isAddressKey k then some s else none
-    | _ => none
+def addrsWith (collectIn : Bool) (f : Filter) : List String :=
+  (f.leaves.map fun (_, k, v) => if isAddressKey k then leafAddrs collectIn v else []).flatten
 
-def needSegments (f : Filter) : Bool := (addrs f).any fun s => isPartial (segments s.toList)
+/-- The current code. -/
+def addrs (f : Filter) : List String := addrsWith true f
+
+/-- Before `df74127`: `$in` arrays were skipped. -/
+def addrsPreFix (f : Filter) : List String := addrsWith false f
+
+def needSegments (f : Filter) : Bool :=
+  f.leaves.any fun (_, k, v) => isAddressKey k && leafNeedsSegments v
 
 def useFilter (validated : List (String × Val)) (name : String) : Bool :=
   validated.any (·.1 == name)
@@ -97,11 +118,5 @@ def lateralKeeps (pushed : List String) (account : List Seg) : Bool :=
 def noAddrIn (f : Filter) : Bool :=
   f.leaves.all fun (op, k, _) => !(isAddressKey k && op == .in_)
 
-/-- Every address leaf carries a string (what validation guarantees for the
-    non-`$in` operators of a string field). -/
-def addrLeavesAreStrings (f : Filter) : Bool :=
-  f.leaves.all fun
-    | (_, k, .sc (.str _)) => true || isAddressKey k
-    | (_, k, _) => !isAddressKey k
 
 end Ledger.Query
